@@ -331,7 +331,7 @@ def make_type(rng, nr, ftf_outer, n_duct=1, pd=None, wire=True, wall=None,
          'pin_pitch': Pp,
          'pin_diameter': D,
          'clad_thickness': 0.08 * D,
-         'wire_pitch': hd * D if wire else 0.0,
+         'wire_pitch': hd * D,
          'wire_diameter': Dw,
          'wire_direction': 'counterclockwise',
          'duct_ftf': [float(x) for x in ftf],
